@@ -32,6 +32,7 @@ def jobs(tier):
     for which in ("3a", "3c"):
         for P in (16384, 32768, 65536):
             out.append(("%s.single.P%d" % (which, P), "job", dict(which=which, shape="single", P=P, K=4, order="reversed")))
+        out.append(("%s.dir1.P32768" % which, "job", dict(which=which, shape="dir1", P=32768, K=3, order="reversed")))
         out.append(("%s.flat2.P32768" % which, "job", dict(which=which, shape="flat2", P=32768, K=2 if q else 3, order="reversed")))
         out.append(("%s.nested3.P16384" % which, "job", dict(which=which, shape="nested3", P=16384, K=2, order="symbolic" if which == "3a" else "reversed")))
         out.append(("%s.order2.P16384" % which, "job", dict(which=which, shape="order2", P=16384, K=2, order="reversed")))
